@@ -108,6 +108,28 @@ def run(ctx):
                 fails.append({"what": prob, "replay": {"world": w, "trace": res["trace"][:60]}, "signature": sig})
             if len(samples) < 2:
                 samples.append({"world": w["c15"], "final": w["final"], "ops": res["ops"], "crash_states": res["states"], "trace_head": res["trace"][:8]})
+            # the other way a create is killed: an exception that unwinds through its handlers (Ctrl-C, a failing
+            # system call).  Every mutating call of the run is such a point once; a fresh world each time.
+            if wi < ctx.scale(4, 12):
+                def make_run(copy_root, w=w):
+                    im = scenario.Impl.__new__(scenario.Impl)
+                    im.sc, im.base, im.root = {"root": "root", "tree": {}}, os.path.dirname(copy_root), copy_root
+                    im.iifile, im.flat_n = os.path.join(os.path.dirname(copy_root), "_ii.txt"), 0
+                    return lambda: im.run(dict(w["final"]))
+                # a second pristine world (the first one has been sealed by the complete run above)
+                base2 = rt.mktemp("c15i_")
+                try:
+                    impl2 = scenario.Impl({"root": "root", "tree": w["tree"]}, base2)
+                    for op in w["ops"]:
+                        impl2.run(dict(op))
+                    ri = crash.enumerate_interrupt_states(impl2.root, make_run)
+                    states += ri["states"]
+                    dist["interrupt_states"] = dist.get("interrupt_states", 0) + ri["states"]
+                    for prob in ri["unrecoverable"]:
+                        sig = "zero_prior_generations" if ("refuses with 32" in prob and "[zero-prior-generation history" in prob) else None
+                        fails.append({"what": prob, "replay": {"world": w, "mode": "interrupt"}, "signature": sig})
+                finally:
+                    shutil.rmtree(base2, ignore_errors=True)
         finally:
             shutil.rmtree(base, ignore_errors=True)
     for msg in witnesses.ALL["D6"]():
